@@ -94,3 +94,45 @@ func Verif_C19_ConvertersLong(conv, words, wlen int) {
 	verifsym.Assert(out == again, "converter is not a function of its input")
 	verifsym.Reach("end")
 }
+
+// Verif_C19_ConverterHistory: "the converters are pure functions of their
+// input" over call histories, with an oracle: two words of wlen lower-case
+// ASCII letters that are concrete except at one case-split position, where
+// each has its own symbolic lower-case letter. Converter conv is applied to the
+// first word and then to the second: the second result must be what the
+// converter's definition gives for the second word alone (lower snake/kebab:
+// the word; upper snake/kebab: upper-cased; lower camel: the word; upper camel:
+// first letter upper-cased) - whatever was converted before.
+func Verif_C19_ConverterHistory(conv, wlen int) {
+	base := []byte("resolvername")[:wlen]
+	pos := verifsym.IntRange(0, wlen-1)
+	c1, c2 := verifsym.Byte(), verifsym.Byte()
+	verifsym.Assume(verifsym.And(c1 >= 'a', c1 <= 'z'))
+	verifsym.Assume(verifsym.And(c2 >= 'a', c2 <= 'z'))
+	w1 := append([]byte(nil), base...)
+	w2 := append([]byte(nil), base...)
+	w1[pos], w2[pos] = c1, c2
+	// "id" is special-cased by the camel converters
+	verifsym.Assume(string(w2) != "id")
+	f := verifConverters[conv]
+	_ = f(string(w1))
+	got := f(string(w2))
+	want := make([]byte, wlen)
+	for i, c := range w2 {
+		switch conv {
+		case 1, 3:
+			want[i] = c - 32
+		case 5:
+			if i == 0 {
+				want[i] = c - 32
+			} else {
+				want[i] = c
+			}
+		default:
+			want[i] = c
+		}
+	}
+	verifsym.Assert(got == string(want), "the result for a word depends on what was converted before (or differs from the converter's definition)")
+	verifsym.Observe("got", got)
+	verifsym.Reach("end")
+}
